@@ -414,6 +414,7 @@ type c01Req struct {
 	SmudgeEOF bool          `json:"smudgeeof,omitempty"`
 	RawSmudge bool          `json:"rawsmudge,omitempty"` // smudge the INPUT bytes (C08: non-pointers pass through) with Ch
 	NoClean   bool          `json:"noclean,omitempty"`
+	SmudgeSrc []byte        `json:"smudgesrc,omitempty"` // with NoClean: pointer bytes to smudge with the Smudge chunkings
 	PreStore  []string      `json:"prestore,omitempty"` // files whose contents are put into local storage first
 }
 
@@ -620,9 +621,11 @@ func c01DoInproc(req c01Req) (obs c01Obs) {
 	}
 	// the package-global configuration the commands use
 	global.Lock()
-	cfg = repo.conf
-	apiClient = nil
-	tqManifest = make(map[string]tq.Manifest)
+	if cfg != repo.conf {
+		cfg = repo.conf
+		apiClient = nil
+		tqManifest = make(map[string]tq.Manifest)
+	}
 	global.Unlock()
 	ErrorBuffer.Reset()
 	gf := lfs.NewGitFilter(cfg)
@@ -650,6 +653,12 @@ func c01DoInproc(req c01Req) (obs c01Obs) {
 		obs.Store = c01ScanStore(lfsdir)
 		for _, sc := range req.Smudge {
 			obs.Smudges = append(obs.Smudges, c01InprocSmudge(gf, obs.CleanOut, sc, req.SmudgeEOF, req.Path))
+		}
+	}
+	if req.NoClean && req.SmudgeSrc != nil {
+		obs.Store = c01ScanStore(lfsdir)
+		for _, sc := range req.Smudge {
+			obs.Smudges = append(obs.Smudges, c01InprocSmudge(gf, req.SmudgeSrc, sc, req.SmudgeEOF, req.Path))
 		}
 	}
 	if req.RawSmudge {
